@@ -5,10 +5,11 @@
  * value "failed ? NULL : &block"; the snapshot code then walks lists whose
  * nodes are such values and symbolic execution of the recursive walkers does
  * not finish (measured: > 15 min for a single item).  Here the allocator
- * refuses exactly ONE request, the g_fail_at-th of the call (C20: "any single
- * memory allocation fails"); the harness enumerates g_fail_at as constants
- * over the node allocations (and leaves it symbolic beyond them, including
- * "no failure"), so that block addresses stay concrete for symbolic execution.
+ * refuses at most ONE request of the call (C20: "any single memory allocation
+ * fails"): either the g_fail_at-th nni_zalloc request (the snapshot nodes; a
+ * CONSTANT per unit so that node addresses stay concrete for symbolic
+ * execution) or the g_fail_str_at-th nni_alloc request (string copies made by
+ * nni_strdup; symbolic, includes "none").
  * Every other request succeeds with a fresh block of exactly the requested
  * size (zeroed for nni_zalloc).  nni_free carries the sized-free obligation
  * of C03 and the ghost counters, as in env_alloc.h.
@@ -16,8 +17,10 @@
 #ifndef VP_STATS_ALLOC1_H
 #define VP_STATS_ALLOC1_H
 
-size_t g_fail_at;     /* index of the request that is refused (>= number of requests: none) */
-size_t g_alloc_calls; /* non-empty requests so far */
+size_t g_fail_at;     /* index of the nni_zalloc request (snapshot nodes) that is refused; beyond the last: none */
+size_t g_alloc_calls; /* non-empty nni_zalloc requests so far */
+size_t g_fail_str_at; /* index of the nni_alloc request (string copies) that is refused; beyond the last: none */
+size_t g_str_calls;   /* non-empty nni_alloc requests so far */
 
 void *
 nni_alloc(size_t sz)
@@ -25,7 +28,7 @@ nni_alloc(size_t sz)
 	if (sz == 0) {
 		return (NULL);
 	}
-	if (g_alloc_calls++ == g_fail_at) {
+	if (g_str_calls++ == g_fail_str_at) {
 		return (NULL);
 	}
 	g_alloc_ok++;
